@@ -207,12 +207,23 @@ def gen_instance(rng, profile=None):
         md = {"zero": 0, "small": rng.choice([500, 1000, 3000]), "mid": rng.choice([5000, 7000, 12000]),
               "large": 10 ** 6}[maxdist_mode]
         params["maintenance"] = {"maximalDistance": md}
+    # `indices` is a mapping: the matrices may list the locations in any order
+    order = list(range(nlocs))
+    if rng.random() < 0.4:
+        rng.shuffle(order)
+    dh_json = {"indices": ["L%d" % l for l in order],
+               "durations": [[dur[a][b] for b in order] for a in order],
+               "distances": [[dst[a][b] for b in order] for a in order]}
+    # the segments of a route carry an explicit `order`; the list itself may come in any order
+    if rng.random() < 0.3:
+        for r in routes:
+            rng.shuffle(r["segments"])
     inst = {
         "vehicleTypes": types,
         "locations": locs,
         "routes": routes,
         "departures": departures,
-        "deadHeadTrips": {"indices": ["L%d" % l for l in range(nlocs)], "durations": dur, "distances": dst},
+        "deadHeadTrips": dh_json,
         "parameters": params,
     }
     if depots is not None:
